@@ -197,3 +197,37 @@ Proof.
   split; [vm_compute; reflexivity|]. split; [vm_compute; reflexivity|].
   cbn. repeat split; try lia.
 Qed.
+
+(* ---- ForEach, as translated ------------------------------------------------------------------------------------
+   Trie.ForEach with its explicit stack of forEachStep records and keys() (harness gen-imp: the
+   *forEachStep pointers live only in the stack and are values there, `step := stack[len(stack)-1]`
+   an alias of the top; the callback's calls are the items).  keys() ranges over a Go map, whose
+   order is unspecified; the translation (like the model) takes a node's keys in ascending order.
+   On any heap that holds an unshared well-formed tree the translated ForEach reports what the model's
+   for_each reports (which C15_for_each_exact identifies with the members), and leaves the heap
+   alone; and so after New() and ANY history of Add / Delete calls of the translated functions. *)
+From Bio.Proofs Require ImpProofsY.
+
+Theorem C15_for_each_is_source : forall fuel h x r,
+  models h x -> wf (erase x) -> for_each (erase x) = Ok r -> (2 * size (erase x) < fuel)%nat ->
+  ImpGen.imp_trie_Trie_ForEach fuel h (addr x) = GoSem.Ret (h, r).
+Proof. exact ImpProofsY.imp_ForEach_ok. Qed.
+Print Assumptions C15_for_each_is_source.
+
+Theorem C15_for_each_after_history_is_source : forall p fuel fuel2 ops,
+  Forall (fun o => (op_len o < fuel)%nat) ops ->
+  exists h0 root h',
+    ImpGen.imp_trie_New [] = GoSem.Ret (h0, root) /\
+    heap_run fuel ops h0 root = GoSem.Ret (h', snd (run ops empty)) /\
+    forall r, for_each_until p (fst (run ops empty)) = Ok r ->
+              (2 * size (fst (run ops empty)) < fuel2)%nat ->
+              ImpGen.imp_trie_Trie_ForEach_stop p fuel2 h' root = GoSem.Ret (h', r).
+Proof. exact ImpProofsY.imp_trie_history_foreach. Qed.
+Print Assumptions C15_for_each_after_history_is_source.
+
+Example C15_heap_foreach_example :
+  ImpGen.imp_trie_Trie_ForEach 40 [[(97%N, 1%Z); (98%N, 6%Z)]; [(120%N, 5%Z)]; [(100%N, 4%Z)]; []; []; []; []] 0%Z
+  = GoSem.Ret ([[(97%N, 1%Z); (98%N, 6%Z)]; [(120%N, 5%Z)]; [(100%N, 4%Z)]; []; []; []; []], [bs "ax"; bs "b"])
+  /\ ImpGen.imp_trie_Trie_ForEach_stop 1 40 [[(97%N, 1%Z); (98%N, 6%Z)]; [(120%N, 5%Z)]; [(100%N, 4%Z)]; []; []; []; []] 0%Z
+  = GoSem.Ret ([[(97%N, 1%Z); (98%N, 6%Z)]; [(120%N, 5%Z)]; [(100%N, 4%Z)]; []; []; []; []], [bs "ax"]).
+Proof. vm_compute. split; reflexivity. Qed.
